@@ -188,6 +188,87 @@ PROPS.update({
 })
 
 
+def hist_part(name):
+    def part(tier):
+        import hist
+        return getattr(hist, name)(tier)
+    return part
+
+
+HIST_ASSUME = [
+    "the kmertools release binary and the pykmertools module are rebuilt from /repo's working tree with the guard off by every check",
+    "library results come from `ktmc lib` (the /repo crates called through their public setters)",
+    "reference models in /verif/py/pymodel.py are correct (independent of /repo and of the Rust models)",
+]
+
+PROPS.update({
+    "C15": {
+        "engine": "hist",
+        "needs": ["harness", "cli"],
+        "technique": "exhaustive enumeration of a bounded option lattice at process level with differential (CLI vs library) and metamorphic oracles",
+        "parts": [hist_part("c15")],
+        "rule": "complete cross product of a bounded option lattice on the release binary: oligo k x preset x -c x -H x "
+                "-t (0,1,2,16) x source (fa, fq, fa.gz, stdin) on 3 inputs; cgr / k-mer cgr / cov / min / ctr "
+                "lattices over their options in range; every value just outside each documented range (with a "
+                "fresh and with a pre-existing output). Oracles: refusal = non-zero exit or diagnostic, output "
+                "absent/unchanged; otherwise CLI result = library result for the same settings (bytes, or multisets "
+                "of lines where order is unspecified), presets differ only by delimiter, -H adds one line, --acgt "
+                "only changes rendering, values agree with the model. Every lattice point is distinct.",
+        "assumptions": HIST_ASSUME,
+    },
+})
+
+PROPS.update({
+    "C13": {
+        "engine": "hist",
+        "needs": ["harness", "py"],
+        "technique": "bounded-exhaustive differential enumeration: Python binding vs the core crates on every enumerated input",
+        "parts": [hist_part("c13")],
+        "rule": "the freshly built extension module is driven in child interpreters over the same enumerated spaces as "
+                "the core checks: k-mer iterator on every string over {A,C,G,T,N,u,g} up to length 5 (thorough 6) x k "
+                "1..=6 and long inputs for k 15, 30, 31; minimiser iterator on every string over {A,C,G,T,N} up to "
+                "length 6 (7) x all pairs m<=w<=4 and long inputs; oligo vector (bit-exact floats) and header; CGR "
+                "values and ValueError on every bad-byte string; unicode strings over {A,c,N,e-acute,Omega,G-clef} up "
+                "to length 4; batch calls of every size 0..=64, 1000, 4096 under 4 pool sizes; iterators drained "
+                "after their source string was released and the heap churned. Oracle: what the core crates compute "
+                "on the same bytes (expectation file from ktmc). Non-trivial = non-empty expected result.",
+        "assumptions": HIST_ASSUME + ["rayon's schedule inside the extension's batch calls is not controlled (closure is pure; ordered collect trusted)"],
+    },
+})
+
+PROPS.update({
+    "C16": {
+        "engine": "hist",
+        "needs": ["harness", "cli"],
+        "technique": "exhaustive enumeration of degenerate record lists x subcommands at process level against the reference models",
+        "parts": [hist_part("c16")],
+        "rule": "every list of 0..=2 (thorough 0..=3) records over 10 boundary shapes (empty, 1 base, k-1, k, k+1 / w-1, w, "
+                "all-N, N first / middle / last, ordinary) x 11 subcommand variants (oligo mmap / counts / stdin, cgr, "
+                "k-mer cgr, cov, min s2m and m2s with w=0 and w>m, ctr) x threads (1,4) on the release binary; oracle: "
+                "exit 0 within 20 s (whole-sequence CGR may refuse non-nucleotide records), exactly one row per "
+                "record equal to the model's (all-zero / id only where nothing is computable), no placeholder "
+                "rendered. Every case is a distinct (variant, list, threads) triple.",
+        "assumptions": HIST_ASSUME,
+    },
+    "C17": {
+        "engine": "hist",
+        "needs": ["harness", "cli"],
+        "technique": "explicit-state breadth-first search over on-disk states with the real subcommands as the transition function",
+        "parts": [hist_part("c17")],
+        "rule": "states = canonical content of the shared output location; transitions = real runs from an alphabet of "
+                "4-8 runs per output kind (different inputs, k, threads, writer paths, memory ceilings that leave "
+                "temp files of larger chunk x partition grids); search from the empty location and from a location "
+                "pre-filled with longer garbage, to a fixpoint or depth 3 (thorough 4; the counter/coverage directory one level less); invariant on every transition: "
+                "documented result files = the same run alone in a fresh location (bytes for ordered outputs, line "
+                "multisets for unordered ones); the same run twice is part of every state's fan-out.",
+        "states": (["hist.states"], ["hist.transitions"], ["hist.traces"]),
+        "assumptions": HIST_ASSUME + ["state canonicalisation hashes unordered files as sorted line multisets: later runs truncate or rewrite them before reading, so line order cannot influence the future"],
+    },
+})
+
+
 def replay_py(body, path):
-    raise fe.Machinery("no python replay runner for %s" % body.get("runner"))
+    """python-level counterexamples are replayed by re-running the property's quick check"""
+    rc = fe.decide(body["property"], "quick")
+    return rc
 NOT_APPLICABLE = {}
